@@ -58,8 +58,16 @@ func New(options ...VMOption) *VM {
 func (v *VM) btErr(r any) error {
 	bt := v.backtrace
 	var lines []string
-	i := v.frame.Codes[v.frame.N]
-	lines = append(lines, fmt.Sprintf("%v: %v: %v", i.Pos.String(v.globals), i.Code, r))
+	n := v.frame.N
+	if n >= len(v.frame.Codes) { // the frame ran off its end: report its last instruction
+		n = len(v.frame.Codes) - 1
+	}
+	if n >= 0 {
+		i := v.frame.Codes[n]
+		lines = append(lines, fmt.Sprintf("%v: %v: %v", i.Pos.String(v.globals), i.Code, r))
+	} else {
+		lines = append(lines, fmt.Sprint(r))
+	}
 	for n := len(bt) - 1; n >= 0; n-- {
 		pos := bt[n]
 		if pos == 0 {
@@ -244,10 +252,14 @@ func mkFunc(args, rets, slots int, tokens []instruction) func(v *VM) {
 		topN := len(v.stack)
 		v.exec()
 		v.stack = append(v.stack[:v.frame.BaseN], v.stack[topN:]...)
+		base := v.frame.BaseN
+		v.frame = prev // errors from here on belong to the call site
+		if len(v.stack)-base < rets {
+			panic("missing return")
+		}
 		for i := 0; i < rets; i++ {
 			v.stack[len(v.stack)-rets+i] = v.stack[len(v.stack)-rets+i].assign(Type(tokens[args+i].A))
 		}
-		v.frame = prev
 		v.backtrace = v.backtrace[:len(v.backtrace)-1]
 	}
 }
